@@ -136,6 +136,7 @@ func (c *Ctx) c16primMesh() {
 			c.Note("prims.mesh.miss")
 		}
 		c.Emit("c16.mesh.hit", enc+" "+c16rayEnc(&ray, 0, mn, mx), c16hitEncD(h1, r1)+" "+c16hitEncD(h2, r2))
+		c.Emit("c16.holds.bvh", "mesh-hit2-vs-hit "+B(h2)+" "+F(r2.Distance)+" "+B(h1)+" "+F(r1.Distance), "true")
 	}
 }
 
